@@ -16,6 +16,9 @@ pub struct SrcCase {
     pub crlf: bool,
     /// observe the content through a check-lua echo
     pub echo: bool,
+    /// drop the file's final line terminator (languages without a footer)
+    #[serde(default)]
+    pub no_eol: bool,
 }
 
 pub const ECHO_PATTERN: &str = r"[\s\S]*";
@@ -47,7 +50,15 @@ pub fn prepare(c: &SrcCase) -> Prepared {
     let (suffix, lid) = SUFFIXES[c.suffix % SUFFIXES.len()];
     let lang = langs::lang(lid);
     let events = if c.echo { with_echo(&c.events) } else { c.events.clone() };
-    let built = builder::build(lang, &events, c.crlf);
+    let mut built = builder::build(lang, &events, c.crlf);
+    if c.no_eol && lang.footer.is_empty() && !lang.markdown {
+        let t = &mut built.text;
+        if t.ends_with("\r\n") {
+            t.truncate(t.len() - 2);
+        } else if t.ends_with('\n') {
+            t.pop();
+        }
+    }
     Prepared { suffix, lang, file: langs::file_name("src", suffix), built }
 }
 
@@ -202,8 +213,8 @@ pub fn check_as(prop: &str, c: &SrcCase, probe: &Probe, nontrivial: &dyn Fn(&Pre
 }
 
 pub fn case_strategy() -> BoxedStrategy<SrcCase> {
-    (0..SUFFIXES.len(), builder::events_strategy(builder::simple_tag_strategy(), 28), proptest::bool::weighted(0.15), any::<bool>())
-        .prop_map(|(suffix, events, crlf, echo)| SrcCase { suffix, events, crlf, echo })
+    (0..SUFFIXES.len(), builder::events_strategy(builder::simple_tag_strategy(), 28), proptest::bool::weighted(0.15), any::<bool>(), proptest::bool::weighted(0.15))
+        .prop_map(|(suffix, events, crlf, echo, no_eol)| SrcCase { suffix, events, crlf, echo, no_eol })
         .boxed()
 }
 
@@ -221,6 +232,7 @@ pub fn golden_cases() -> Vec<SrcCase> {
                 events: vec![Ev::Code(0), Ev::Open { tag, place: pl.clone() }, Ev::Code(1), Ev::Close { spelling: 0, place: pl }, Ev::Code(2)],
                 crlf: false,
                 echo: true,
+                no_eol: false,
             });
         }
     }
